@@ -43,7 +43,8 @@ def showInv (l : List (String × Nat)) : String :=
 def step (st : St) (ws : List String) : St × String :=
   match ws with
   | "req" :: idx :: rest =>
-    match headerOfNats ((rest.take 11).map natOf), rest.drop 11 with
+    -- an optional trailing `P` marks a pressure sequence (same prediction; the harness reads slowly)
+    match headerOfNats ((rest.take 11).map natOf), ((rest.drop 11).take 6) with
     | some h, [q, b, found, exec, hv, ho] =>
       match bytesOfHex q, bytesOfHex b, parseHOut hv, parseHOut ho with
       | some q, some b, some hv, some ho =>
@@ -59,12 +60,14 @@ def step (st : St) (ws : List String) : St × String :=
         let r2 := respond Gen.codes .atcp req utf8 fnd hv' ho'
         let r3 := respond Gen.codes wsT req utf8 fnd hv' ho'
         let st' := if r1.2 = 1 then { st with inv := bump (hexOfBytes q) st.inv } else st
-        (st', joinSp [idx, "tcp=" ++ showResp r1.1, "atcp=" ++ showResp r2.1, "ws=" ++ showResp r3.1])
+        -- `tcpw` / `atcpw`: the same servers with a write timeout configured (other framing branch, same bytes)
+        (st', joinSp [idx, "tcp=" ++ showResp r1.1, "tcpw=" ++ showResp r1.1, "atcp=" ++ showResp r2.1,
+                      "atcpw=" ++ showResp r2.1, "ws=" ++ showResp r3.1])
       | _, _, _, _ => (st, idx ++ " bad-op")
     | _, _ => (st, idx ++ " bad-op")
   | ["inv", idx] =>
     let s := showInv st.inv
-    ({ inv := [] }, joinSp [idx, "tcp=" ++ s, "atcp=" ++ s, "ws=" ++ s])
+    ({ inv := [] }, joinSp [idx, "tcp=" ++ s, "tcpw=" ++ s, "atcp=" ++ s, "atcpw=" ++ s, "ws=" ++ s])
   | _ => (st, "bad-op")
 
 end Repe.Driver.Dispatch
